@@ -1657,6 +1657,10 @@ namespace avel {
 
     [[nodiscard]]
     AVEL_FINL div_type<vec2x64u> div(vec2x64u numerator, vec2x64u denominator) {
+        // The result of a lane with a zero denominator is unspecified, but
+        // dividing it must not trap and take the other lanes down with it
+        denominator = blend(denominator == vec2x64u{0}, vec2x64u{1}, denominator);
+
         auto n0 = extract<0>(numerator);
         auto n1 = extract<1>(numerator);
 
